@@ -804,6 +804,193 @@ def run_sync(cfg):
     return dict(ops=ops, answers=answers, obs=obs, info=info)
 
 
+# ---- the library's own default TLS path: TCPNetworkClient(..., ssl=True) / AsyncTCPNetworkClient(..., ssl=True)
+
+K_DEFAULT_CLIENT, K_DEFAULT_FLAG = 2, 3
+
+
+class _RecDefaultContext(ssl.SSLContext):
+    """What the patched ssl.create_default_context() returns: a genuine SSLContext (Python's defaults, so
+    OP_IGNORE_UNEXPECTED_EOF is SET) that trusts the test certificate and records raw SSL outcomes."""
+
+    def wrap_socket(self, sock, **kw):
+        s = super().wrap_socket(sock, **kw)
+        s._sslobj = RawSSLProxy(s._sslobj, self._log)
+        return s
+
+
+def _default_context_factory(holder, log, ver=None):
+    def create_default_context(*a, **k):
+        ctx = _RecDefaultContext(ssl.PROTOCOL_TLS_CLIENT)
+        ctx.load_verify_locations(K.CERT)
+        if ver is not None:
+            ctx.minimum_version = ctx.maximum_version = K._VER[ver]
+        ctx._log = log
+        holder.append(ctx)
+        return ctx
+    return create_default_context
+
+
+def run_default_client(cfg):
+    """TCPNetworkClient(sock, protocol, ssl=True) over loopback TCP against the relayed peer, cut after k bytes."""
+    from easynetwork.clients.tcp import TCPNetworkClient
+    from easynetwork.protocol import StreamProtocol
+    from easynetwork.serializers.line import StringLineSerializer
+
+    std, ver, cut = bool(cfg["std"]), cfg["ver"], cfg.get("cut")
+    log, holder = [], []
+    lst = socket.socket()
+    lst.bind(("127.0.0.1", 0))
+    lst.listen(1)
+    a = socket.create_connection(lst.getsockname())
+    b, _ = lst.accept()
+    lst.close()
+    b.settimeout(5.0)
+    peer = K.Peer(K.server_ctx(ver), True, [("write", b"hello\n"), ("write", b"x" * 39 + b"\n"), ("unwrap",)])
+    state = dict(delivered=0, err=None)
+
+    def relay():
+        try:
+            out = peer.pump()
+            while True:
+                if out:
+                    room = len(out) if cut is None else max(0, min(len(out), cut - state["delivered"]))
+                    if room:
+                        b.sendall(out[:room])
+                        state["delivered"] += room
+                if cut is not None and state["delivered"] >= cut:
+                    break
+                if peer.handshaken and not peer.script:
+                    break
+                data = b.recv(65536)
+                if not data:
+                    break
+                peer.feed(data)
+                out = peer.pump()
+            b.shutdown(socket.SHUT_WR)
+            while True:
+                d = b.recv(65536)
+                if not d:
+                    break
+                peer.feed(d)
+                peer.pump()
+        except OSError as exc:
+            state["err"] = repr(exc)
+
+    th = threading.Thread(target=relay, daemon=True)
+    th.start()
+    saved = ssl.create_default_context
+    ssl.create_default_context = _default_context_factory(holder, log, ver)
+    first, last = None, None
+    client = None
+    try:
+        try:
+            client = TCPNetworkClient(a, StreamProtocol(StringLineSerializer()), ssl=True, server_hostname="localhost",
+                                      ssl_standard_compatible=std, ssl_handshake_timeout=5.0, ssl_shutdown_timeout=1.0)
+            first = [1, 0, 0]
+        except BaseException as exc:
+            cause = exc.__cause__ if isinstance(exc, ConnectionAbortedError) and isinstance(exc.__cause__, ssl.SSLError) else exc
+            first = [1, 1, exc_code(cause)]
+    finally:
+        ssl.create_default_context = saved
+    npackets = 0
+    if client is not None:
+        for _ in range(6):
+            try:
+                client.recv_packet(timeout=5.0)
+                npackets += 1
+            except ConnectionAbortedError as exc:
+                # the endpoint reports a clean end-of-stream as ECONNABORTED "(end-of-stream)"; the client converts an
+                # SSL EOF error into the same class (without the suffix, the SSL error as __cause__): tell them apart
+                if isinstance(exc.__cause__, ssl.SSLError):
+                    last = [1, 1, exc_code(exc.__cause__)]
+                else:
+                    last = [1, 0, 0]
+                break
+            except BaseException as exc:
+                last = [1, 1, exc_code(exc)]
+                break
+    answers = list(log)
+    if client is not None:
+        try:
+            client.close()
+        except BaseException:
+            pass
+    else:
+        a.close()
+    th.join(10)
+    b.close()
+    # transport-level calls reconstructed from the raw log: one recv per pumped read that ended
+    ops = [[OP_WRAP, 0]]
+    for m, code, _v in answers:
+        if m == K.M_READ and code not in (K.O_WANT_READ, K.O_WANT_WRITE, K.O_SSL_SYSCALL):
+            ops.append([OP_RECV, RECV_SIZE])
+    if last is None:
+        last = first
+    flag = int(bool(holder and holder[0].options & ssl.OP_IGNORE_UNEXPECTED_EOF))
+    info = dict(delivered=state["delivered"], peer_total=peer.total_out, peer_done=bool(peer.handshaken and not peer.script),
+                cn_seen=bool(peer.got_close_notify), err=state["err"], npackets=npackets)
+    return dict(ops=ops, answers=answers, obs=[first, last, flag], info=info)
+
+
+def run_default_flag(which):
+    """Is OP_IGNORE_UNEXPECTED_EOF still set on the default context after the client's constructor?"""
+    from easynetwork.protocol import StreamProtocol
+    from easynetwork.serializers.line import StringLineSerializer
+
+    holder = []
+    saved = ssl.create_default_context
+    ssl.create_default_context = _default_context_factory(holder, [])
+    a, b = socket.socket(), None
+    lst = socket.socket()
+    lst.bind(("127.0.0.1", 0))
+    lst.listen(1)
+    a = socket.create_connection(lst.getsockname())
+    b, _ = lst.accept()
+    lst.close()
+    try:
+        if which == 1:
+            from easynetwork.clients.async_tcp import AsyncTCPNetworkClient
+            from easynetwork.lowlevel.api_async.backend._asyncio.backend import AsyncIOBackend
+            AsyncTCPNetworkClient(a, StreamProtocol(StringLineSerializer()), AsyncIOBackend(), ssl=True,
+                                  server_hostname="localhost")
+        else:
+            b.close()       # the handshake fails at once; the context has been prepared before
+            try:
+                from easynetwork.clients.tcp import TCPNetworkClient
+                TCPNetworkClient(a, StreamProtocol(StringLineSerializer()), ssl=True, server_hostname="localhost",
+                                 ssl_handshake_timeout=2.0)
+            except OSError:
+                pass
+    finally:
+        ssl.create_default_context = saved
+        for s_ in (a, b):
+            try:
+                s_.close()
+            except OSError:
+                pass
+    return [int(bool(holder and holder[0].options & ssl.OP_IGNORE_UNEXPECTED_EOF))]
+
+
+def _default_client_cases(thorough):
+    yield dict(input=[K_DEFAULT_FLAG, 0], nontrivial=True, tags=["default-client-context", "blocking"])
+    yield dict(input=[K_DEFAULT_FLAG, 1], nontrivial=True, tags=["default-client-context", "async"])
+    for ver in (13, 12):
+        base = dict(kind=K_DEFAULT_CLIENT, std=1, ver=ver, cut=None)
+        r = run_default_client(base)
+        total = r["info"]["delivered"]
+        step = 8 if thorough else 64
+        for cut in sorted(set(range(0, total + 1, step)) | {total - 30, total - 2, total - 1, total}):
+            for std in (1, 0):
+                cfg = dict(base, std=std, cut=cut)
+                r = run_default_client(cfg)
+                inp = sx.norm([K_DEFAULT_CLIENT, std, r["ops"], r["answers"], 0, [b"client", ver, cut]])
+                _MEMO[sx.to_text(inp)] = sx.norm(r["obs"])
+                yield dict(input=inp, nontrivial=cut < total,
+                           tags=["default-client-path", "blocking", "real-openssl", f"tls1.{ver - 10}",
+                                 "std" if std else "nonstd", "truncated" if cut < total else "clean-close"])
+
+
 # ------------------------------------------------------------------ cases
 
 def _cfg_sx(cfg):
@@ -853,6 +1040,11 @@ def run_impl(inp):
     if key in _MEMO:
         return _MEMO[key]
     kind, std = inp[0], inp[1]
+    if kind == K_DEFAULT_FLAG:
+        return run_default_flag(inp[1])
+    if kind == K_DEFAULT_CLIENT:
+        tail = inp[-1]
+        return run_default_client(dict(std=std, ver=tail[1], cut=tail[2]))["obs"]
     cfg = _sx_cfg(kind, std, inp[-1])
     inp2, out, _info = _build(cfg)
     if sx.norm(inp2[3]) != sx.norm(inp[3]) and kind == K_ASYNC:
@@ -1054,6 +1246,7 @@ def _close_cases(rng):
 
 def cases(tier, rng, escalate):
     thorough = tier == "thorough" or escalate
+    yield from _default_client_cases(thorough)
     yield from _close_cases(rng)
     yield from _fake_async(thorough, rng)
     yield from _fake_sync(thorough, rng)
@@ -1065,6 +1258,24 @@ def cases(tier, rng, escalate):
 
 def oracle(inp):
     kind, std = inp[0], inp[1]
+    if kind == K_DEFAULT_FLAG:
+        if run_default_flag(inp[1])[0]:
+            return ("default client context: OP_IGNORE_UNEXPECTED_EOF is still set after the %s client's constructor "
+                    "(ssl=True), so OpenSSL hides truncations" % ("asynchronous" if inp[1] else "blocking"))
+        return None
+    if kind == K_DEFAULT_CLIENT:
+        tail = inp[-1]
+        cfg = dict(std=std, ver=tail[1], cut=tail[2])
+        r = run_default_client(cfg)
+        info = r["info"]
+        first, last, _flag = r["obs"]
+        trunc = not (info["peer_done"] and info["delivered"] >= info["peer_total"])
+        eof = last[1] == 0 and first[1] == 0
+        if std and trunc and eof:
+            return f"default client (ssl=True), standard-compatible: stream cut at {cfg['cut']} reported as clean end-of-stream"
+        if not trunc and not eof:
+            return "default client (ssl=True): complete stream with close-notify did not end cleanly"
+        return None
     cfg = _sx_cfg(kind, std, inp[-1])
     r = run_async(cfg) if kind == K_ASYNC else run_sync(cfg)
     info, obs = r["info"], r["obs"]
@@ -1089,9 +1300,10 @@ def oracle(inp):
     hs_ok = results and results[0][1] == 0
     trunc = _truncated(info, cfg)
     eofs = [res for res in recv_results if res[1] == 0 and res[2] == 0]
-    suffix = " [context has OP_IGNORE_UNEXPECTED_EOF set]" if cfg.get("ign") else ""
-    if std and trunc and eofs:
-        return f"standard-compatible: stream cut at {cfg.get('cut')} before the end of the close-notify reported as clean end-of-stream" + suffix
+    # ASSUMPTION of the property: the context has OP_IGNORE_UNEXPECTED_EOF cleared; with the option set OpenSSL itself
+    # answers read() -> b"" at a truncation (those cases stay in the correspondence, the property is not stated on them)
+    if std and trunc and eofs and not cfg.get("ign"):
+        return f"standard-compatible: stream cut at {cfg.get('cut')} before the end of the close-notify reported as clean end-of-stream"
     if trunc and hs_ok and not std and recv_results and recv_results[-1][1] == 1 and recv_results[-1][2] in (4, 5):
         return f"non-standard mode: abrupt end at {cfg.get('cut')} raised an SSL EOF error instead of end-of-stream"
     if not trunc and hs_ok and recv_results and not eofs:
@@ -1114,14 +1326,12 @@ def _final_read_outcomes(answers, kind):
             m, code = a[1], a[3]
         else:
             m, code = a[0], a[1]
-        if m == K.M_READ and code not in (K.O_WANT_READ, K.O_WANT_WRITE):
+        if m == K.M_READ and code not in (K.O_WANT_READ, K.O_WANT_WRITE) and not (kind == K_SYNC and code == K.O_SSL_SYSCALL):
             outs.append(code)
     return outs
 
 
 def signature(inp, failure):
-    if "OP_IGNORE_UNEXPECTED_EOF" in failure and failure.startswith("standard-compatible: stream cut"):
-        return "std-truncation-clean-eof-when-context-ignores-unexpected-eof"
     return failure.split(":")[0] + ":" + failure.split(":")[1][:40] if ":" in failure else failure
 
 
